@@ -50,7 +50,7 @@ func c03Body(sc *WF) Verdict {
 		tr := x.snapshot()[rr.Lo:rr.Hi]
 		got := leafOrder(tr)
 		if !intsEq(got, mr.Visited) {
-			return bad("C03:path", "run %d: nodes executed %v, the table and the returned actions determine %v", r, got, mr.Visited)
+			return bad("C03:path", "run %d: nodes executed %s, the table and the returned actions determine %s", r, shortInts(got), shortInts(mr.Visited))
 		}
 		if !sameShape(tr, mr.Trace) {
 			return bad("C03:touch", "run %d: callbacks %v, model %v", r, traceStrings(tr), modelStrings(mr.Trace))
@@ -351,6 +351,42 @@ func checkC03SM(t *testing.T, s C03SM) Verdict {
 	return ok(nontrivial, cl...)
 }
 
+// longLoop: a flow whose table keeps it walking until the fuel (leaf visits) is used up; then
+// every post answers the never-connected "halt" and the flow ends.
+func longLoop(shape, kind, fuel int) WF {
+	leaf := func(act ...string) NodeSpec {
+		l := &LeafSpec{Kind: kind, N: 1}
+		for _, a := range act {
+			l.Visits = append(l.Visits, VisitScript{Exec: []Outcome{{Pay: 1}}, Action: a})
+		}
+		return NodeSpec{Leaf: l}
+	}
+	var w WF
+	switch shape {
+	case 0: // self-loop
+		w.Nodes = []NodeSpec{leaf("a"), {Flow: &FlowSpec{Start: 0, Conns: []Conn{{0, "a", 0}}}}}
+	case 1: // 2-cycle on different actions
+		w.Nodes = []NodeSpec{leaf("a"), leaf("b"), {Flow: &FlowSpec{Start: 0, Conns: []Conn{{0, "a", 1}, {1, "b", 0}}}}}
+	case 2: // 3 nodes, node 0 alternates between two targets that both lead back
+		w.Nodes = []NodeSpec{leaf("a", "b"), leaf("a"), leaf("a"), {Flow: &FlowSpec{Start: 0, Conns: []Conn{{0, "a", 1}, {0, "b", 2}, {1, "a", 0}, {2, "a", 0}}}}}
+	default: // the loop lives in an inner flow; the outer flow loops over the inner flow as well
+		w.Nodes = []NodeSpec{leaf("a", "a", "out"), leaf("b"),
+			{Flow: &FlowSpec{Start: 0, Conns: []Conn{{0, "a", 0}}}},
+			{Flow: &FlowSpec{Start: 2, Conns: []Conn{{2, "out", 1}, {1, "b", 2}}}}}
+	}
+	w.Root = len(w.Nodes) - 1
+	w.Fuel = fuel
+	return w
+}
+
+// shortInts prints a long node sequence as its head, its tail and its length.
+func shortInts(v []int) string {
+	if len(v) <= 48 {
+		return fmt.Sprint(v)
+	}
+	return fmt.Sprintf("%v ... %v (%d nodes)", v[:24], v[len(v)-8:], len(v))
+}
+
 func TestC03(t *testing.T) {
 	r := newRun(t, "C03")
 	defer r.finish()
@@ -367,6 +403,25 @@ func TestC03(t *testing.T) {
 	}
 	g := wfGen{MaxLeaves: 12, MaxFlows: 3, Actions: prefixActions, MaxN: 1, MaxVisits: 4, FuelMax: 30, MaxRuns: 3, PBatch: 100}
 	rapidPart(r, "rand-nested", r.pick(4000, 60000), g.gen, checkC03)
+	// Long walks: cycles and self-loops that the table and the scripts make run hundreds or
+	// thousands of times before the exit action comes (the statement bounds no path length: a
+	// flow ends exactly when the pair has no connection, never because it has run "too long").
+	laps := []int{300, 1000, 4000}
+	if r.thorough() {
+		laps = append(laps, 20000, 100000)
+	}
+	k := 0
+	for _, fuel := range laps {
+		for shape := 0; shape < 4; shape++ {
+			for kind := 0; kind < numKinds; kind++ {
+				if r.mine(k) {
+					evalCase(r, "long-loops", longLoop(shape, kind, fuel), checkC03)
+				}
+				k++
+			}
+		}
+	}
+	r.note("long-loops: %d flows (self-loop, 2-cycle, 3-cycle with a shared target, loop inside a nested flow) x every leaf kind, walked for %v node visits before the exit action", k, laps)
 	// Two different nodes living at one address (a struct and its first field, LeafSpec.TwinOf)
 	// and flows that contain themselves are supported by the executor but NOT generated: node
 	// identity by address and rejecting recursive nesting are both legitimate designs.
